@@ -333,3 +333,13 @@ theorem C19_no_hidden_process_state :
 end SA.PkgState
 
 #print axioms SA.PkgState.C19_no_hidden_process_state
+
+namespace SA.Wrappers
+/-- the delegating wrappers (`deleg` in the model: Named*, SimulatedConnection, StreamWrappedConnection, and the
+    multiplexer-stream wrapper) declare no `Close` / `Closed` of their own (regenerated): both are the embedded Safe*
+    value's, as `closeG` / `closedQG` on `deleg` say — in particular a stream-wrapped connection's status does not
+    depend on its underlying net.Conn, which serves addresses and deadlines only. -/
+theorem C19_delegating_wrappers_have_no_own_close : Gen.c19DelegOwnMethods = [] := by decide
+end SA.Wrappers
+
+#print axioms SA.Wrappers.C19_delegating_wrappers_have_no_own_close
